@@ -232,12 +232,25 @@ class Threadless(ABC, Generic[T]):
         unfinished_work_ids = set()
         for task in self.unfinished:
             unfinished_work_ids.add(task._work_id)   # type: ignore
-        for work_id in self.works:
+        # Iterate over a snapshot, a failing work is removed from self.works
+        for work_id in list(self.works):
             # We don't want to invoke work objects which haven't
             # yet finished their previous task
             if work_id in unfinished_work_ids:
                 continue
-            await self._update_work_events(work_id)
+            # An error raised while refreshing the events of one work
+            # (get_events raising, selector refusing a descriptor the
+            # work has closed or replaced) must tear down that work only.
+            try:
+                await self._update_work_events(work_id)
+            except Exception as exc:
+                logger.exception(
+                    'Exception while updating events for work#{0}, tearing down'.format(
+                        work_id,
+                    ),
+                    exc_info=exc,
+                )
+                self._cleanup(work_id)
         await self._update_conn_pool_events()
 
     async def _selected_events(self) -> Tuple[
@@ -298,7 +311,17 @@ class Threadless(ABC, Generic[T]):
     def _cleanup_inactive(self) -> None:
         inactive_works: List[int] = []
         for work_id in self.works:
-            if self.works[work_id].is_inactive():
+            try:
+                inactive = self.works[work_id].is_inactive()
+            except Exception as exc:
+                logger.exception(
+                    'Exception in is_inactive of work#{0}, tearing down'.format(
+                        work_id,
+                    ),
+                    exc_info=exc,
+                )
+                inactive = True
+            if inactive:
                 inactive_works.append(work_id)
         for work_id in inactive_works:
             self._cleanup(work_id)
@@ -313,13 +336,29 @@ class Threadless(ABC, Generic[T]):
                         fileno, work_id,
                     ),
                 )
-                self.selector.unregister(fileno)
+                try:
+                    self.selector.unregister(fileno)
+                except (KeyError, ValueError, OSError):
+                    # Selector has already dropped this descriptor,
+                    # e.g. after a failed modify() on a closed fd.
+                    pass
             self.registered_events_by_work_ids[work_id].clear()
             del self.registered_events_by_work_ids[work_id]
-        self.works[work_id].shutdown()
-        del self.works[work_id]
-        if self.work_queue_fileno() is not None:
-            os.close(work_id)
+        # Forget the work before shutting it down so that an exception
+        # raised by shutdown() can neither leave it behind nor stop the loop.
+        work = self.works.pop(work_id, None)
+        if work is None:
+            return
+        try:
+            work.shutdown()
+        except Exception as exc:
+            logger.exception(
+                'Exception during shutdown of work#{0}'.format(work_id),
+                exc_info=exc,
+            )
+        finally:
+            if self.work_queue_fileno() is not None:
+                os.close(work_id)
 
     def _create_tasks(
             self,
